@@ -1,6 +1,7 @@
 import ParryModel.Field
 import ParryModel.C08.Lemmas
 import ParryModel.C08.RefitLemmas
+import ParryModel.C08.TrackedLemmas
 /-!
 # C08 property theorems: the QBVH stays valid under any history
 
@@ -181,14 +182,183 @@ theorem boxInv_semantic (q : Q K) (cur : Nat → Aabb3 K) :
   intro hb n nd hn hlive l c b hc hbx
   exact goodNode_semantic (boxLaws_field sq) q cur nd (hb n nd hn hlive) l c b hc hbx
 
+/-- ids of a history are real `u32`s below the sentinel, margins are non-negative -/
+def OpOkB : Op K → Prop
+  | .insert id _ => id < MAXN
+  | .refit m => 0 ≤ m
+  | _ => True
+
+/-- **`remove` keeps every out-of-date node queued** (`Full` = `Inv` ∧ `Tracked` ∧ `DirtyQueued` ∧ `DataOk`) -/
+theorem remove_preserves_full (q q' : Q K) (cur : Nat → Aabb3 K) (id : Nat) (b : Bool) :
+    letI := fieldNum K sq
+    Full q cur → remove q id = some (q', b) → Full q' cur := by
+  letI := fieldNum K sq
+  exact fun h hr => full_remove q q' cur id b h hr
+
+/-- **`pre_update_or_insert` with the corrected root split keeps every out-of-date node queued**, on all three
+paths, when the user's current box of leaf `id` becomes `box`.  (For the pinned root split this is false: see the
+decided counter-example `pinned_root_split_loses_boxes` below.) -/
+theorem preUpdateOrInsert_preserves_full (q q' : Q K) (cur : Nat → Aabb3 K) (id : Nat) (box : Aabb3 K)
+    (hid : id < MAXN) (hsz : q.nodes.size + 8 ≤ MAXN) :
+    letI := fieldNum K sq
+    Full q cur → preUpdateOrInsert true q id = some q' → Full q' (fun d => if d = id then box else cur d) := by
+  letI := fieldNum K sq
+  exact fun h hq => full_preUpdateOrInsert (boxLaws_field sq) q q' cur id box h hid hsz hq
+
+/-- one operation of a history (corrected model) preserves `Full`; after a `refit` the box invariant holds -/
+theorem step_preserves_full (w w' : World K) (op : Op K) :
+    letI := fieldNum K sq
+    Full w.q w.cur → OpOkB op → w.q.nodes.size + 8 ≤ MAXN → step true w op = some w' →
+      Full w'.q w'.cur ∧ (∀ m, op = .refit m → BoxInv w'.q w'.cur) := by
+  letI := fieldNum K sq
+  intro h hok hsz hs
+  cases op with
+  | insert id box =>
+    simp only [step] at hs
+    cases hq : preUpdateOrInsert true w.q id with
+    | none => rw [hq] at hs; cases hs
+    | some q' =>
+      rw [hq] at hs; simp only [Option.map_some, Option.some.injEq] at hs; subst hs
+      exact ⟨full_preUpdateOrInsert (boxLaws_field sq) w.q q' w.cur id box h hok hsz hq, fun m e => by cases e⟩
+  | remove id =>
+    simp only [step] at hs
+    cases hq : remove w.q id with
+    | none => rw [hq] at hs; cases hs
+    | some r =>
+      rw [hq] at hs; simp only [Option.map_some, Option.some.injEq] at hs; subst hs
+      exact ⟨full_remove w.q r.1 w.cur id r.2 h hq, fun m e => by cases e⟩
+  | refit m =>
+    simp only [step] at hs
+    cases hr : refit w.q w.cur m with
+    | none => rw [hr] at hs; cases hs
+    | some r =>
+      rw [hr] at hs; simp only [Option.map_some, Option.some.injEq] at hs; subst hs
+      obtain ⟨hf, hb⟩ := full_refit (boxLaws_field sq) w.q w.cur m hok h r hr
+      exact ⟨hf, fun _ _ => hb⟩
+
+/-- `Full` holds after every finite history of the corrected model (induction over the operation list) -/
+theorem run_preserves_full (ops : List (Op K)) :
+    letI := fieldNum K sq
+    ∀ (w w' : World K), Full w.q w.cur → (∀ op ∈ ops, OpOkB op) → w.q.nodes.size + 8 * ops.length ≤ MAXN →
+      run true w ops = some w' → Full w'.q w'.cur := by
+  letI := fieldNum K sq
+  induction ops with
+  | nil => intro w w' h _ _ hr; simp only [run] at hr; cases hr; exact h
+  | cons op ops ih =>
+    intro w w' h hok hsz hr
+    simp only [List.length_cons] at hsz
+    simp only [run] at hr
+    cases hs : step true w op with
+    | none => rw [hs] at hr; cases hr
+    | some w1 =>
+      rw [hs] at hr
+      have hok1 := hok op (by simp)
+      obtain ⟨h1, _⟩ := step_preserves_full sq w w1 op h hok1 (by omega) hs
+      have hsz1 : w1.q.nodes.size ≤ w.q.nodes.size + 8 := by
+        have hokA : OpOk op := by
+          cases op <;> simp only [OpOk, OpOkB] at * <;> first | exact hok1 | trivial
+        exact (step_preserves_inv true w w1 op h.inv hokA (by omega) hs).2
+      exact ih w1 w' h1 (fun o ho => hok o (by simp [ho])) (by omega) hr
+
+/-- **Headline: after any finite history that ends with a `refit`, the tree is structurally valid and every stored
+box contains the boxes below it and the current box of its leaf.**  For every list of `pre_update_or_insert` (with the
+new current box) / `remove` / `refit` operations (ids `< u32::MAX`, margins `≥ 0`, fewer than `2^32/8` operations)
+run by the corrected model from the empty tree: if the run completes, then `Inv` and `BoxInv` hold at the end. -/
+theorem history_valid_after_refit (ops : List (Op K)) (m : K) (w' : World K) :
+    letI := fieldNum K sq
+    (∀ op ∈ ops, OpOkB op) → 0 ≤ m → 8 * (ops.length + 1) ≤ MAXN →
+      run true World.empty (ops ++ [Op.refit m]) = some w' → Inv w'.q ∧ BoxInv w'.q w'.cur := by
+  letI := fieldNum K sq
+  intro hok hm hsz hr
+  -- split the run at the last operation
+  have key : ∀ (ops : List (Op K)) (w : World K), run true w (ops ++ [Op.refit m]) = some w' →
+      ∃ w1, run true w ops = some w1 ∧ step true w1 (Op.refit m) = some w' := by
+    intro ops
+    induction ops with
+    | nil =>
+      intro w h
+      simp only [List.nil_append, run] at h
+      cases hs : step true w (Op.refit m) with
+      | none => rw [hs] at h; cases h
+      | some w2 => rw [hs] at h; simp only [run] at h; exact ⟨w, rfl, by rw [hs, h]⟩
+    | cons op ops ih =>
+      intro w h
+      simp only [List.cons_append, run] at h
+      cases hs : step true w op with
+      | none => rw [hs] at h; cases h
+      | some w2 =>
+        rw [hs] at h
+        obtain ⟨w1, a, b⟩ := ih w2 h
+        exact ⟨w1, by simp only [run, hs]; exact a, b⟩
+  obtain ⟨w1, hrun, hstep⟩ := key ops World.empty hr
+  have hf1 : Full w1.q w1.cur := run_preserves_full sq ops World.empty w1 (full_empty _) hok
+    (by simp [World.empty, Q.empty]; omega) hrun
+  have hsz1 : w1.q.nodes.size + 8 ≤ MAXN := by
+    have : ∀ (ops : List (Op K)) (w w1 : World K), Inv w.q → (∀ op ∈ ops, OpOkB op) →
+        w.q.nodes.size + 8 * ops.length ≤ MAXN → run true w ops = some w1 → w1.q.nodes.size ≤ w.q.nodes.size + 8 * ops.length := by
+      intro ops
+      induction ops with
+      | nil => intro w w1 _ _ _ h; simp only [run] at h; cases h; simp
+      | cons op ops ih =>
+        intro w w1 hi hok hsz h
+        simp only [List.length_cons] at hsz ⊢
+        simp only [run] at h
+        cases hs : step true w op with
+        | none => rw [hs] at h; cases h
+        | some w2 =>
+          rw [hs] at h
+          have hok1 := hok op (by simp)
+          have hokA : OpOk op := by
+            cases op <;> simp only [OpOk, OpOkB] at * <;> first | exact hok1 | trivial
+          obtain ⟨hi2, hs2⟩ := step_preserves_inv true w w2 op hi hokA (by omega) hs
+          have := ih w2 w1 hi2 (fun o ho => hok o (by simp [ho])) (by omega) h
+          omega
+    have := this ops World.empty w1 inv_empty hok (by simp [World.empty, Q.empty]; omega) hrun
+    simp [World.empty, Q.empty] at this; omega
+  obtain ⟨hf, hb⟩ := step_preserves_full sq w1 w' (Op.refit m) hf1 hm hsz1 hstep
+  exact ⟨hf.inv, hb m rfl⟩
+
 end boxes
 
-/-! non-vacuity: a concrete history over `ℚ` reaching the root split, and the invariant evaluated on it -/
+/-! ## Decided witnesses (exact rational arithmetic, kernel evaluation of the model) -/
 section examples
-open Model.Qbvh
-def unitBoxQ (x : ℚ) : Aabb3 ℚ := ⟨⟨x, 0, 0⟩, ⟨x + 1, 1, 1⟩⟩
-def hist17 : List (Op ℚ) :=
-  (List.range 17).map (fun i => Op.insert i (unitBoxQ (3 * i))) ++ [Op.remove 3, Op.refit 0, Op.insert 3 (unitBoxQ 100), Op.refit (1/2)]
+
+/-- unit box number `i` of a 4-wide grid with pitch 3 -/
+def gridBox (i : Nat) : Aabb3 ℚ :=
+  ⟨⟨3 * (i % 4 : Nat), 3 * (i / 4 : Nat), 0⟩, ⟨3 * (i % 4 : Nat) + 1, 3 * (i / 4 : Nat) + 1, 1⟩⟩
+
+/-- sixteen leaves fill the four root lanes; refit; the 17th leaf splits the root and is removed again before the
+next refit (`corpus/C08.txt`) -/
+def histSplit : List (Op ℚ) :=
+  (List.range 16).map (fun i => Op.insert i (gridBox i)) ++
+    [Op.refit 0, Op.insert 16 (gridBox 40), Op.remove 16, Op.refit 0]
+
+/-- run a history from the empty tree and evaluate the executable invariants on the final state:
+`(checkInv, checkFresh, checkBox, number of nodes)` -/
+def finalChecks (fixRoot : Bool) (ops : List (Op ℚ)) : Option (Bool × Bool × Bool × Nat) :=
+  (run fixRoot World.empty ops).map fun w => (checkInv w.q, checkFresh w.q w.cur, checkBox w.q w.cur, w.q.nodes.size)
+
+/-- **The pinned root split violates the property**: after the history `histSplit` (which ends with a `refit`) the
+tree of the pinned model is structurally valid (7 nodes) but the root's lane 0 box — still the box of leaves 0–3 —
+does not contain the boxes of leaves 4–15 that now live below it: both box checks are `false`. -/
+theorem pinned_root_split_loses_boxes : finalChecks false histSplit = some (true, false, false, 7) := by
+  decide +kernel
+
+/-- with the corrected root split the same history ends in a state satisfying all executable invariants
+(and this is a non-trivial instance of the hypotheses of `history_valid_after_refit`: the run completes) -/
+theorem corrected_root_split_keeps_boxes : finalChecks true histSplit = some (true, true, true, 7) := by
+  decide +kernel
+
+/-- a longer history reaching a second root split, with moves, removals and re-insertions, margins 0 and 1/2 -/
+def histLong : List (Op ℚ) :=
+  (List.range 20).map (fun i => Op.insert i (gridBox i)) ++
+    [Op.refit (1/2), Op.remove 3, Op.remove 7, Op.insert 5 (gridBox 33), Op.refit 0] ++
+    (List.range 16).map (fun i => Op.insert (20 + i) (gridBox (2 * i))) ++
+    [Op.insert 3 (gridBox 3), Op.remove 21, Op.refit (1/2)]
+
+theorem long_history_valid : finalChecks true histLong = some (true, true, true, 13) := by
+  decide +kernel
+
 end examples
 
 end C08
